@@ -78,7 +78,7 @@ pub fn observe(c: &Case, st: &mut Stats) {
     }
     if super::taint::first_drop(&c.history).is_some() {
         st.inc("histories_with_dropped_fold_iterations", 1);
-        st.inc("runs_on_data_with_dropped_fold_iterations", super::taint::by_step(&c.history).iter().filter(|b| **b).count() as u64);
+        st.inc("runs_on_data_with_dropped_fold_iterations", super::taint::by_step(&c.history).iter().filter(|b| b.0).count() as u64);
     }
     if c.history.cut {
         st.inc("histories_cut_by_step_bound", 1);
@@ -93,8 +93,14 @@ pub fn observe(c: &Case, st: &mut Stats) {
         if super::taint::dropped_states(&s.out) > 0 {
             st.inc("runs_dropping_recorded_fold_iterations", 1);
         }
-        if super::taint::unmapped_states(&s.out) > 0 {
-            st.inc("runs_leaving_lore_of_unmapped_values_unclaimed", 1);
+        if super::taint::unreplayed_states(&s.out) > 0 {
+            st.inc("runs_dropping_iterations_of_values_not_replayed_yet", 1);
+        }
+        if super::taint::lost_mapping_states(&s.out) > 0 {
+            st.inc("runs_leaving_lore_unclaimed_for_lack_of_a_position_mapping", 1);
+        }
+        if super::taint::failed_call_left_state(&s.out) {
+            st.inc("runs_where_a_failing_call_left_its_sent_state", 1);
         }
         st.label("ret_code_classes", &format!("{:?}", s.class()));
         if let Some(v) = &s.out_v {
@@ -135,6 +141,10 @@ pub const DIRECTED: &[(&str, usize, &str)] = &[
     ("xor-in-par-fold", 3, r#"(seq (call "@P0" ("svc" "arr1") [] xs) (fold xs it (par (xor (call "@P1" ("svc" "e2") [it] a) (call "@P2" ("svc" "f3") [it :error:.$.error_code] b)) (next it))))"#),
     // bounded recursive stream: the fold appends to the stream it iterates
     ("recursive-stream", 3, r#"(seq (call "@P0" ("svc" "f1") [] x) (seq (ap "seed" $s) (fold $s it (seq (xor (match it "seed" (ap "more" $s)) (null)) (seq (call "@P1" ("svc" "f2") [it] $t) (seq (call "@P2" ("svc" "f3") [it] y) (next it)))))))"#),
+    // a call is recorded as sent while its argument is not resolvable yet (join); once it is, resolving
+    // it fails (lens error) before the trace is consulted, and the xor's right branch meets the recorded
+    // state (the recorded failed-call finding, DESIGN.md 12.7)
+    ("failed-call-after-join", 2, r#"(xor (seq (par (call "@P0" ("svc" "f1") [] x) (null)) (call "@P1" ("svc" "f2") [x.$.nope])) (par (call "@P0" ("svc" "f3") []) (null)))"#),
     // new-scoped stream inside a stream fold, canonicalised per iteration
     ("new-stream-in-fold", 3, r#"(seq (par (call "@P0" ("svc" "f1") [] $s) (call "@P1" ("svc" "f2") [] $s)) (fold $s it (par (new $n (seq (call "@P2" ("svc" "f3") [it] $n) (seq (canon "@P2" $n #cn) (call "@P0" ("svc" "f4") [#cn] z)))) (next it))))"#),
 ];
@@ -147,6 +157,8 @@ pub const WITNESS_SCHEDULES: &[(&str, &str)] = &[
     // P2 sees "seed" (from P0) before "a" (from P1); P1, which holds both in one generation, then
     // merges P2's data while its first iteration ("a") still waits for a local call
     ("seq-fold-generation-split", "S D0 C1:1 C1:2 D0 C0:1 D1 C2:1 D0 C2:2 D0 D0 C1:3 D0"),
+    // P0 marks f2 as sent while x is unknown, then learns x and fails to resolve x.$.nope
+    ("failed-call-after-join", "S C0:1"),
 ];
 
 fn parse_schedule(text: &str) -> Vec<Decision> {
